@@ -10,6 +10,13 @@ SEEDS = {
  "C05-a": ("C05","publisher.go distributeEvent: return on the first failing send","a sibling subscription closed while an event is being distributed and visited first in the subscription map","caught after strengthening","missed by the first C05 harness (no subscriber ever closed, insertion-order map iteration); caught after adding the action 'close a sibling' and exploring all map orders: C05/exact-suffix/complete"),
  "C06-a": ("C06","subscription_filter.go: pre-ready Refilter(new) no longer records s.filter","Refilter(B) before the parent is ready, later Refilter back to the initial filter","caught","C06 quick: C06/content/*"),
  "C08-a": ("C08","subscription_filter.go: refilter switch regrouped; deferred + equal filter closes Ready without the parent being ready","deferred variant, first Refilter equal to the initial filter, before parent ready","caught","C08 quick: C08/ready-iff-synced, C08/deferred-needs-filter (natively reproduced)"),
+ "C10-a": ("C10","subscription.go _subscription.run: on buffer overrun a DELETE event blocks until there is room instead of being dropped","a stalled consumer whose buffer is completely full, then a delete, then at least one more event","caught after strengthening","missed by the first C10 harness (create-only streams); caught after publishing mixed create/delete streams: C10/healthy-complete, C10/healthy/exact-suffix/*"),
+ "C11-a": ("C11","subscription_filter.go: parent events are not read between a pre-ready Refilter(new) and parent readiness","a filtered node, Refilter(new) while the parent is not ready, and a close before the parent becomes ready","caught after strengthening","missed by the first C11 harness (root always ready, no refilter); caught after adding not-yet-ready roots and refilter-before-close: C11/subtree-done, C11/stuck (natively reproduced)"),
+ "C12-a": ("C12","watcher.go: the session created on the reconnect path hangs off w.ctx instead of the run loop's cancelable context","controller ready, server drops the watch, retry delay elapses and the reconnect succeeds, then Close()","caught after strengthening","missed by the first C12 watcher harness (no reconnect path); caught after adding 'server drops the stream, retry timer fires, reconnect': C12/stuck"),
+ "C13-a": ("C13","ticker.go Reset: blocking drain of timer.C restored (the original F4)","list latency + consumption delay longer than the period","caught","C13 quick: C13/stuck, C13/prompt-shutdown (natively reproduced)"),
+ "C16-a": ("C16","monitor.go run: readiness folded into the event loop, events consumed before Ready","an event buffered in the monitor's subscription before readiness","caught","C16 quick: C16/init-once-first, C16/no-callback-if-never-ready, C16/one-per-event (natively reproduced)"),
+ "C17-a": ("C17","filter/filter.go nsNameFilter.Equals: fast path compares only fully-qualified ids when the receiver has no partial ids","receiver NSName without partials, argument with the same full ids plus a partial id","caught","C17 quick: C17/sound/nsname, C17/sound/ingress (natively reproduced)"),
+ "C19-a": ("C19","types/service/filter.go PodsFilter: one namespace filter per run of equal namespaces, selector-less services skipped before the boundary check","at least 3 services over 2 namespaces with a selector-less service first in the later namespace","caught after strengthening","missed at W<=2 workloads; caught after adding 3-workload entries with small label maps for the map-selector kinds: C19/service (natively reproduced)"),
 }
 rows=[]
 for sid,(prop,site,needs,res,by) in sorted(SEEDS.items()):
